@@ -1,6 +1,7 @@
 package utils
 
 import (
+	"sync"
 	"sync/atomic"
 	"time"
 )
@@ -31,6 +32,8 @@ const length = int64(64)
 type Yeast struct {
 	seed atomic.Int64
 	prev atomic.Value
+
+	mu sync.Mutex
 }
 
 func NewYeast() *Yeast {
@@ -59,6 +62,10 @@ func (y *Yeast) Decode(str string) int64 {
 }
 
 func (y *Yeast) Yeast() string {
+	// the compare-and-reset of prev/seed below must not interleave
+	y.mu.Lock()
+	defer y.mu.Unlock()
+
 	now := y.Encode(time.Now().UnixMilli())
 
 	prev, _ := y.prev.Load().(string)
